@@ -1184,9 +1184,34 @@ def new_module_constants(tree: ast.Module, known_vars: set[str] | None) -> dict[
             return literal(e.operand, depth + 1)
         return False
 
+    parents: dict[int, ast.AST] = {}
+    for p in ast.walk(tree):
+        for c in ast.iter_child_nodes(p):
+            parents[id(c)] = p
+
+    def read_only(name: str) -> bool:
+        """A mutable literal (list / dict / set) is a constant only if it is never mutated and never escapes: every use is an
+        iteration, a membership test, a subscript load or a call of items() / keys() / values() / get()."""
+        for n in ast.walk(tree):
+            if not (isinstance(n, ast.Name) and n.id == name and isinstance(n.ctx, ast.Load)):
+                continue
+            p = parents.get(id(n))
+            if isinstance(p, ast.Attribute) and p.value is n and p.attr in ("items", "keys", "values", "get", "__contains__", "__getitem__"):
+                continue
+            if isinstance(p, ast.Subscript) and p.value is n and isinstance(p.ctx, ast.Load):
+                continue
+            if isinstance(p, ast.Compare) and n in p.comparators and all(isinstance(o, (ast.In, ast.NotIn)) for o in p.ops):
+                continue
+            if isinstance(p, (ast.For, ast.comprehension)) and p.iter is n:
+                continue
+            return False
+        return True
+
     out = {}
     for name, val in defs.items():
         if name in known_vars or stores.get(name) != 1 or not literal(val):
+            continue
+        if any(isinstance(x, (ast.List, ast.Dict, ast.Set)) for x in ast.walk(val)) and not read_only(name):
             continue
         if isinstance(val, ast.Call):  # frozenset((..)) / tuple([..]) of literals: the literal sequence itself
             val = ast.copy_location(ast.Tuple(elts=list(val.args[0].elts), ctx=ast.Load()), val) if isinstance(val.args[0], (ast.Tuple, ast.List, ast.Set)) else val
